@@ -291,6 +291,13 @@ def count_boundary_histories(chk, tier):
     return hs
 
 
+def long_histories(chk, tier):
+    """Long columns (hundreds to thousands of rows): level runs and bit-packed groups of every length class, pages with
+    many values, run headers beyond one varint byte. Null patterns = beat of two square waves (MC_WriterGen "beat")."""
+    rows = [100, 520, 1100] if tier == "quick" else [100, 520, 1100, 4100, 9000]
+    return gen_histories(chk, [1, 3, 9, 6, 4, 8], rows, 2, 3, nullmode="beat", simulate=4 if tier == "quick" else 12, workers=6)
+
+
 def nontrivial_history(ops):
     nb = sum(1 for o in ops if o["op"] == "WriteBatch")
     nulls = any(0 in o["defs"] for o in ops if o["op"] == "WriteBatch" and o["withDefs"])
